@@ -68,6 +68,58 @@ def corpus_case(draw):
     return {"src": "corpus", "item": draw(st.integers(0, n - 1)), "ops": ops}
 
 
+ML_WORDS = ["order id", "assigned by billing", "see below", "n/a", "first line", "second", "x", "a b c", "value 1", "to be defined"]
+
+
+@st.composite
+def ml_case(draw):
+    """a table whose string literals (column COMMENT / DEFAULT, table COMMENT) run over several lines; comments are inserted around them and
+    appended to the lines that close them (a line inside a literal is text, not a place for a comment)"""
+    cols = []
+    for i in range(draw(st.integers(2, 4))):
+        lit = None
+        if draw(st.integers(0, 2)) > 0:
+            lit = [draw(st.sampled_from(ML_WORDS)) for _ in range(draw(st.integers(2, 3)))]
+        cols.append({"name": "c%d" % i, "type": draw(st.sampled_from(["int", "varchar(10)", "text", "decimal(10,2)"])), "lit": lit,
+                     "kw": draw(st.sampled_from(["COMMENT", "DEFAULT"])), "after": draw(st.sampled_from(["", " NOT NULL", " NULL"])),
+                     "indent": draw(st.sampled_from(["", "  ", "      "]))})
+    tcomment = [draw(st.sampled_from(ML_WORDS)) for _ in range(2)] if draw(st.booleans()) else None
+    ops = [draw(comment_op(i)) for i in range(draw(st.integers(1, 5)))]
+    for o in ops[:2]:
+        if draw(st.booleans()):
+            o["style"] = draw(st.sampled_from(TRAIL_STYLES))  # trailing comments are the point here
+            o["text"] = o["text"][:1]
+    return {"src": "ml", "cols": cols, "tcomment": tcomment, "ops": ops, "second": draw(st.booleans())}
+
+
+def ml_lines(case):
+    """-> (lines, indices of lines that continue a literal, indices of lines that end inside a literal)"""
+    lines, cont, open_end = ["CREATE TABLE ml_t ("], set(), set()
+    for n, c in enumerate(case["cols"]):
+        end = "," if n < len(case["cols"]) - 1 else ""
+        if not c["lit"]:
+            lines.append("  %s %s%s%s" % (c["name"], c["type"], c["after"], end))
+            continue
+        lines.append("  %s %s %s '%s" % (c["name"], c["type"], c["kw"], c["lit"][0]))
+        open_end.add(len(lines) - 1)
+        for piece in c["lit"][1:-1]:
+            lines.append(c["indent"] + piece)
+            cont.add(len(lines) - 1)
+            open_end.add(len(lines) - 1)
+        lines.append("%s%s'%s%s" % (c["indent"], c["lit"][-1], c["after"], end))
+        cont.add(len(lines) - 1)
+    if case["tcomment"]:
+        lines.append(") COMMENT '%s" % case["tcomment"][0])
+        open_end.add(len(lines) - 1)
+        lines.append("  %s';" % case["tcomment"][1])
+        cont.add(len(lines) - 1)
+    else:
+        lines.append(");")
+    if case.get("second"):
+        lines += ["CREATE TABLE ml_u (", "  a int,", "  b int", ");"]
+    return lines, cont, open_end
+
+
 def comment_lines(op):
     """-> (lines to insert, None) for whole-line styles | (None, suffix) for trailing styles"""
     s, t = op["style"], op["text"]
@@ -97,7 +149,7 @@ def comment_lines(op):
     return None, " /* " + t[0] + " */"
 
 
-def apply_ops(lines, ops, conservative=False, no_carve=False):
+def apply_ops(lines, ops, conservative=False, no_carve=False, no_before=(), no_trail=()):
     """-> (new lines, applied ops in source order, stats). Whole-line comments are inserted before line (at % (n+1));
     trailing comments are appended to the code line (at % n) unless a carve-out applies."""
     n = len(lines)
@@ -115,11 +167,14 @@ def apply_ops(lines, ops, conservative=False, no_carve=False):
     for op in ops:
         ins, suffix = comment_lines(op)
         if ins is not None:
+            if op["at"] % (n + 1) in no_before:
+                stats["skipped"] += 1  # the line continues a string literal: nothing can be inserted in front of it
+                continue
             before.setdefault(op["at"] % (n + 1), []).append(op)
         else:
             i = op["at"] % n
             code = lines[i]
-            if not code.strip() or i in trail:
+            if not code.strip() or i in trail or i in no_trail:
                 stats["skipped"] += 1
                 continue
             if ("--" in code or IN_COMMENT_RE.search(code + suffix)) and not no_carve:
@@ -173,8 +228,8 @@ def squeeze(s):
 
 class C08(Prop):
     id = "C08"
-    rule = ("case = a generated script of 1..3 blocks (every statement kind, drawn multi-line layout) or a comment-free "
-            "regression-corpus script, plus 1..5 inserted comments, each of one of 11 styles: whole-line '-- x', '--x', indented "
+    rule = ("case = a generated script of 1..3 blocks (every statement kind, drawn multi-line layout), a table whose string literals "
+            "(column COMMENT / DEFAULT, table COMMENT) run over 2..3 lines, or a comment-free regression-corpus script, plus 1..5 inserted comments, each of one of 11 styles: whole-line '-- x', '--x', indented "
             "'--', '# x', indented '#', '/* x */' at column 0 or indented, multi-line block comment of 2..5 lines (opener at column "
             "0, closer ending its line or on its own line) before / between / inside statements, trailing '-- x', '--x' or "
             "'/* x */' after the code of a line; comment text = marker word zq<i>x<j> mixed with SQL keywords, statement-level "
@@ -191,7 +246,7 @@ class C08(Prop):
     ]
 
     def strategy(self, tier):
-        return st.one_of(gen_case(), gen_case(), gen_case(), corpus_case())
+        return st.one_of(gen_case(), gen_case(), gen_case(), corpus_case(), ml_case())
 
     def enumerated(self, tier):
         # deterministic sweep: every corpus script x a fixed set of comment insertions (each style at three positions)
@@ -204,6 +259,8 @@ class C08(Prop):
                 yield {"src": "corpus", "item": i, "ops": [op(s, at + 3 * n, n) for n, s in enumerate(styles)]}
 
     def base_text(self, case):
+        if case["src"] == "ml":
+            return "\n".join(ml_lines(case)[0]) + "\n"
         if case["src"] == "corpus":
             return universe.corpus()[case["item"]]["ddl"].replace("\r\n", "\n")
         stmts = universe.script_statements(case["blocks"])
@@ -212,9 +269,15 @@ class C08(Prop):
             stmts = [[t for t in s if t[1] != "E"] if i < len(stmts) - 1 else s for i, s in enumerate(stmts)]
         return render_script(stmts, case["layout"])
 
+    def protected(self, case):
+        if case["src"] != "ml":
+            return (), ()
+        _, cont, open_end = ml_lines(case)
+        return cont, open_end
+
     def describe(self, case):
         base = self.base_text(case)
-        lines, order, _ = apply_ops(base.split("\n"), case["ops"], case["src"] == "corpus", case.get("_no_carve"))
+        lines, order, _ = apply_ops(base.split("\n"), case["ops"], case["src"] == "corpus", case.get("_no_carve"), *self.protected(case))
         return {"ddl": "\n".join(lines), "comment_styles": [o["style"] for o in order], "source": case["src"]}
 
     def evaluate(self, case):
@@ -230,7 +293,9 @@ class C08(Prop):
             kw.pop("json_dump", None)
         base = self.base_text(case)
         base_lines = base.split("\n")
-        lines, order, stats = apply_ops(base_lines, case["ops"], case["src"] == "corpus", case.get("_no_carve"))
+        lines, order, stats = apply_ops(base_lines, case["ops"], case["src"] == "corpus", case.get("_no_carve"), *self.protected(case))
+        if case["src"] == "ml" and any(o["style"] in TRAIL_STYLES for o in order):
+            out.label("trailing-comment-next-to-multi-line-literal")
         if stats["K21_skipped"]:
             out.label("K21_trailing_skipped")
         if not order:
@@ -266,7 +331,7 @@ class C08(Prop):
             if re.search(r"zq\d+x\d+", s):
                 out.fail("comment-text-in-entity", "%r inside an entity; commented=%r" % (s, text))
                 break
-        if case["src"] == "gen":
+        if case["src"] in ("gen", "ml"):
             texts = [squeeze(" ".join(comment_lines(o)[0]) if comment_lines(o)[0] is not None else comment_lines(o)[1]) for o in order]
             pos = 0
             for item in c1:
